@@ -153,6 +153,121 @@ func init() {
 		return line, res, class
 	}})
 
+
+	// compseq: the real and the virtual line of the completion engine under sequences of operations (C14):
+	// generate, cycle forward/backward, drop the candidate (Cancel(true)), keep it (Cancel(false) + ClearMenu,
+	// what UpdateInserted does), type a character, unique candidate accepted at once
+	register(&model{name: "compseq", gen: func(rng *rand.Rand) (string, string, string) {
+		l := randRunes(rng, compAlpha, 8)
+		cp := rng.Intn(len(l) + 1)
+		class := "cycle"
+		var ops, outs []string
+		res := guard(func() string {
+			eng, keys, line, cur := newCompEngine(l, cp)
+			core.MatchedKeys(keys, []byte{9})
+			snap := func() {
+				cl, cc := eng.Line()
+				outs = append(outs, fmt.Sprintf("%s@%d/%s@%d", natsR([]rune(*cl)), cc.Pos(), natsR([]rune(*line)), cur.Pos()))
+			}
+			prefix := func() string {
+				probe := core.Line(append([]rune{}, (*line)...))
+				c := cur.Pos() - 1
+				if cur.Pos() == 0 {
+					return ""
+				}
+				if c < 0 {
+					c = 0
+				}
+				b, _ := probe.SelectBlankWord(c)
+				if b > c {
+					b, c = c, b
+				}
+				if c < probe.Len() {
+					c++
+				}
+				return strings.TrimSpace(string(probe[b:c]))
+			}
+			pad := strings.Repeat("y", 44)
+			nseg := 1 + rng.Intn(3)
+			for sg := 0; sg < nseg; sg++ {
+				pfx := prefix()
+				eng.ClearMenu(true)
+				if rng.Intn(6) == 0 { // a unique candidate is accepted into the real line at once
+					class = "unique"
+					v := pfx + []string{"u", "\u00e9", "uu" + pad}[rng.Intn(3)]
+					ops = append(ops, "g")
+					snap()
+					eng.GenerateWith(func() completion.Values { return completion.AddRaw([]completion.Candidate{{Value: v, Display: v}}) })
+					ops = append(ops, "u:"+natsR([]rune(v)))
+					snap()
+				} else {
+					k := 2 + rng.Intn(3)
+					var vals []string
+					for i := 0; i < k; i++ {
+						sfx := fmt.Sprintf("x%d", i)
+						if rng.Intn(4) == 0 {
+							sfx += "\u4e2d\u00e9"
+						}
+						vals = append(vals, pfx+sfx+pad)
+					}
+					eng.GenerateWith(func() completion.Values {
+						var cs []completion.Candidate
+						for _, v := range vals {
+							cs = append(cs, completion.Candidate{Value: v, Display: v})
+						}
+						return completion.AddRaw(cs)
+					})
+					ops = append(ops, "g")
+					snap()
+					idx := -1
+					for m := rng.Intn(6); m > 0; m-- {
+						if rng.Intn(4) == 0 {
+							eng.Select(-1, 0)
+							if idx <= 0 {
+								idx = k - 1
+							} else {
+								idx--
+							}
+						} else {
+							eng.Select(1, 0)
+							idx = (idx + 1) % k
+						}
+						ops = append(ops, "s:"+natsR([]rune(vals[idx])))
+						snap()
+						if rng.Intn(5) == 0 { // the candidate dropped in the middle of the cycle, the selector stays
+							eng.Cancel(true, false)
+							ops = append(ops, "x")
+							snap()
+						}
+					}
+					if rng.Intn(2) == 0 {
+						eng.Cancel(true, false)
+						ops = append(ops, "x")
+					} else {
+						eng.Cancel(false, true)
+						eng.ClearMenu(true)
+						ops = append(ops, "k")
+					}
+					snap()
+				}
+				for m := rng.Intn(3); m > 0; m-- {
+					c := compAlpha[rng.Intn(len(compAlpha))]
+					cur.InsertAt(c)
+					ops = append(ops, fmt.Sprintf("e:%d", c))
+					snap()
+				}
+			}
+			return strings.Join(outs, " ")
+		})
+		if res == "panic" {
+			res = strings.Join(append(outs, "panic"), " ")
+		}
+		if len(ops) == 0 {
+			return "", "", ""
+		}
+		return fmt.Sprintf("compseq %s %d %s", natsR(l), cp, strings.Join(ops, ",")), res, class
+	}})
+
 	// kill: kill commands followed by yank, through the real Shell (C16)
 	killAlpha := []rune{'a', 'b', ' ', ' ', '\n', '-', '.', '"', 0xe9, 0x4e2d}
 	killCmds := []string{"kill-line", "backward-kill-line", "backward-kill-word"}
